@@ -75,6 +75,7 @@ type Cfg struct {
 	FaultAdd   int                `json:"fault_add,omitempty"`
 	FaultInit  int                `json:"fault_init,omitempty"`
 	FaultRead  int                `json:"fault_read,omitempty"`
+	Reorder    int                `json:"reorder,omitempty"`   // F8: delay MOVED_TO halves past rename records of other tasks
 	Lagfree    bool               `json:"lagfree,omitempty"`   // quiesce after every body operation (single sequential task)
 	Recurse    bool               `json:"recurse,omitempty"`   // enable the recursive-watch switch
 	Consumers  []ConsumerCfg      `json:"consumers,omitempty"` // per watcher index; default "both"
